@@ -165,6 +165,22 @@ example : ∃ s, Reachable [[.useOk], [.useFail]] 2 s ∧ s.allDone ∧ s.create
   simp only [Bool.and_eq_true, decide_eq_true_eq] at hp
   exact ⟨s, hr, allDone_of_prefix hr hp.1.1.1.1, hp.1.1.1.2, hp.1.1.2, hp.1.2, hp.2⟩
 
+/-- non-vacuity of `C08_quiescent_accounting` on the failing-creator branch: the only idle connection has idled out, `get` discards
+it (closing it) and then the creation of its replacement fails - the checkout fails, and at quiescence the discarded
+connection has been closed exactly once (it is not forgotten because the checkout did not succeed). -/
+example : runSchedule 1 [[.useOk, .useOk]] (taus 0 14 ++ [(0, .expired)] ++ taus 0 2 ++ [(0, .createFail)] ++ taus 0 1) =
+    ["acq 0", "len-free 0", "len-used 0", "create 0", "append-used 0", "rel 0", "work 0",
+     "acq 0", "remove-used 0", "append-free 0", "rel 0",
+     "acq 0", "len-free 1", "popleft 0", "after_remove 0", "len-free 0", "len-used 0", "create-failed", "rel 0"] := by decide
+
+example : ∃ s, Reachable [[.useOk, .useOk]] 1 s ∧ s.allDone ∧ s.created = 1 ∧ s.free = [] ∧ s.closedCnt 0 = 1 := by
+  obtain ⟨s, hr, hp⟩ := runCheck_reachable (maxSize := 1) (programs := [[.useOk, .useOk]])
+    (sched := taus 0 14 ++ [(0, .expired)] ++ taus 0 2 ++ [(0, .createFail)] ++ taus 0 1)
+    (p := fun s => ((List.range 1).all fun t => (s.th t).done) && decide (s.created = 1) &&
+      decide (s.free = []) && decide (s.closedCnt 0 = 1)) (by decide)
+  simp only [Bool.and_eq_true, decide_eq_true_eq] at hp
+  exact ⟨s, hr, allDone_of_prefix hr hp.1.1.1, hp.1.1.2, hp.1.2, hp.2⟩
+
 /-- C08 (closed at most once).  `after_remove` (= `client.close()`) is never called twice on the same
 connection, in any reachable state. -/
 theorem C08_closed_at_most_once (h : Reachable programs maxSize s) : ∀ o, s.closedCnt o ≤ 1 :=
